@@ -17,7 +17,7 @@ META = {
     "level": "proof",
     "technique": "Coq proof of the determinism idioms (sort-after-combine, EdgePos order, ReorderHalfedges, heap with serials, unique slots) "
                  "+ source translator checking every combine/atomic/concurrent site + hash exploration across seq/par/sim builds, arenas and seeds",
-    "text": "Proved for all inputs and all schedules (Properties_C04.v, 20 theorems, no axioms): any stable sort of any combinable outcome (arbitrary "
+    "text": "Proved for all inputs and all schedules (Properties_C04.v, 21 theorems, no axioms): any stable sort of any combinable outcome (arbitrary "
             "leaf->worker assignment, leaf order, combine_each order) is one list when the comparator separates the records (Intersect12_: no hypothesis, "
             "payload is a function of (edge,face)); necessity of that hypothesis by a refuted example; EdgePos::operator< strict total order given distinct "
             "collisionIds and canonical buckets for locked runs; ReorderHalfedges erases per-triangle slot rotation (unique-minimum hypothesis, shown necessary); "
@@ -63,6 +63,13 @@ PROGRAMS = [
     ("mink", "mink", 12, 0, 0, "q", True, "Minkowski sum, non-convex x convex (autoPolicy 100)"),
     ("minkd", "mink", 8, 0, 1, "q", False, "Minkowski difference"),
     ("decomp", "decomp", 20, 24, 0, "q", True, "Compose + Decompose (union-find labels)"),
+    ("cloud", "cloud", 12000, 60, 0, "q", False, "12000 tiny tetrahedra at 60 sites via MeshGL: 48000 verts/tris with massive Morton-code ties > 1e4 (stability of the parallel merge sort decides the export order)"),
+    ("cloud5k", "cloud", 5000, 20, 0, "q", True, "same, 20000 verts (just above where an unstable merge shows)"),
+    ("cloudbool", "cloudbool", 12000, 60, 0, "q", False, "the cloud through a Boolean (Subtract a cube)"),
+    ("farbox", "farbox", 160, 20000, 0, "q", True, "Sphere(160) + a far-away tetrahedron: 6402 verts / 12800 tris share a handful of Morton cells; then Refine(2)"),
+    ("farbox400", "farbox", 400, 50000, 0, "t", False, "same with 80k tris"),
+    ("cscloud", "cscloud", 6000, 30, 0, "q", False, "6000 tiny squares at 30 sites: CrossSection union, Offset, Extrude (2-D sort ties)"),
+    ("tricloud", "tricloud", 6000, 30, 0, "q", False, "Triangulate 6000 tiny squares at 30 sites"),
     ("dedupe", "dedupe", 100, 0, 0, "q", True, "MeshGL import with a 4-manifold edge, 15k halfedges > 1e4: DedupeEdges/SplitPinchedVerts par paths"),
     ("dedupe_s", "dedupe", 32, 0, 0, "q", True, "same below 1e4"),
     ("simplify", "simplify", 100, 23, 0.02, "q", False, "Simplify of a Boolean"),
@@ -117,6 +124,7 @@ def run(cx):
     cx.assumptions += [
         "PROVED: normalisation layer only (Properties_C04.v); the stable sort is specified (sorted + equivalent elements keep their order), so the theorems cover std::stable_sort and parallel.h's merge/radix sort provided those meet the specification (C13)",
         "NAMED GAP 1 (not proved): AppendWholeEdges slot order -> Face2Tri start; triangulation's independence from the start slot is NOT proved (only the 3-edge face case is: face2tri_single_triangle_slot_order_partial + reorder_halfedges_canonical)",
+        "parallel_merge_sort_meets_stable_spec imports C13's model of parallel.h's merge sort (Par/ParDefs.merge_sort, Par/SortModel.v); its tie to the source is C13's correspondence plus the StableMergeBounds row of the generated table (token-level check of the two bound calls in mergeRec)",
         "NAMED GAP 2 (not proved): Winding03_ chooses a component representative through concurrent union-find roots (schedule dependent); equal output needs the winding number to be constant per component",
         "hypotheses visible in the theorems: comparator separates the records (shown necessary by sort_after_combine_without_injective_key_refuted); distinct collisionIds / locked runs; unique smallest startVert per triangle (shown necessary); distinct serials",
         "edgePos / NumVert are integers in the model (finite non-NaN doubles embed order-isomorphically)",
